@@ -28,13 +28,15 @@ type strOutcome struct {
 	mayReturn bool     // some feasible path returns normally
 	results   []string // constant string results of the feasible returns (single-result functions)
 	resultsOK bool     // every feasible return yields a constant string
+	// bool results per result index: 1 = some feasible return yields true, 2 = false, 4 = a non-constant
+	boolRes map[int]int
 }
 
 // paramIs: which parameters of fn are known to hold the value.
 type strEnv map[*ssa.Parameter]bool
 
 func (e *strEval) run(fn *ssa.Function, env strEnv) strOutcome {
-	out := strOutcome{resultsOK: true}
+	out := strOutcome{resultsOK: true, boolRes: map[int]int{}}
 	if e.depth > 5 || len(fn.Blocks) == 0 {
 		return strOutcome{mayReturn: true}
 	}
@@ -57,6 +59,18 @@ func (e *strEval) run(fn *ssa.Function, env strEnv) strOutcome {
 				return
 			case *ssa.Return:
 				out.mayReturn = true
+				for i, rv := range x.Results {
+					for _, src := range phiSources(rv) {
+						switch {
+						case isConstBool(src.V, true):
+							out.boolRes[i] |= 1
+						case isConstBool(src.V, false):
+							out.boolRes[i] |= 2
+						default:
+							out.boolRes[i] |= 4
+						}
+					}
+				}
 				if len(x.Results) == 1 {
 					for _, src := range phiSources(x.Results[0]) {
 						if s, ok := core.ConstString(src.V); ok {
@@ -137,6 +151,28 @@ func (e *strEval) decide(cond ssa.Value, fn *ssa.Function, env strEnv) (known, t
 		if x.Op == token.NOT {
 			k, t := e.decide(x.X, fn, env)
 			return k, !t
+		}
+	case *ssa.Extract:
+		// the bool a helper that was handed the parameter returns next to its other results
+		// (msg, reserved := reservedEventMessage(event))
+		if call, ok := x.Tuple.(*ssa.Call); ok {
+			cal := call.Common().StaticCallee()
+			if cal != nil && len(cal.Blocks) > 0 && cal.Pkg == fn.Pkg {
+				env2 := e.bind(call, cal, env)
+				if len(env2) == 0 {
+					return false, false
+				}
+				saved := e.targets
+				e.targets = nil
+				sub := e.run(cal, env2)
+				e.targets = saved
+				switch sub.boolRes[x.Index] {
+				case 1:
+					return true, true
+				case 2:
+					return true, false
+				}
+			}
 		}
 	case *ssa.BinOp:
 		if x.Op != token.EQL && x.Op != token.NEQ {
